@@ -5,6 +5,7 @@ from .. import routes as R, boot
 from ..refmodel import expr as X
 
 PROPERTY = 'C17'
+CASE_TIMEOUT = 300
 LEVEL = 'fault_enumeration'
 RULE = ('cases = every tabulation target (11 potable targets + writePotentials x 3 + writeFuncFL + the procedural EAM writers) x EVERY position '
         'k = 1..N of the failing evaluation among all N function evaluations of a complete write (count pass first; pair, density, embedding, '
@@ -24,10 +25,15 @@ class InjectedFault(ValueError):
     pass
 
 
+FAULTS = {'ValueError': InjectedFault, 'StopIteration': StopIteration, 'ZeroDivisionError': ZeroDivisionError, 'KeyError': KeyError,
+          'RuntimeError': RuntimeError, 'OverflowError': OverflowError, 'GeneratorExit': None}
+
+
 class Shared(object):
-    def __init__(self, fail_at):
+    def __init__(self, fail_at, exc=InjectedFault):
         self.count = 0
         self.fail_at = fail_at
+        self.exc = exc
 
 
 class Proxy(object):
@@ -37,7 +43,7 @@ class Proxy(object):
     def __call__(self, r):
         self.shared.count += 1
         if self.shared.count == self.shared.fail_at:
-            raise InjectedFault('injected failure at evaluation %d' % self.shared.count)
+            raise self.shared.exc('injected failure at evaluation %d' % self.shared.count)
         return self.f(r)
 
 
@@ -65,7 +71,7 @@ def make_objects(target, shared, n):
     dip = [ap.Potential('A', 'A', P(lambda r: 0.5 - 0.1 * r)), ap.Potential('A', 'B', P(lambda r: 0.25 + r))]
     quad = [ap.Potential('B', 'B', P(lambda r: 0.75 * math.exp(-r))), ap.Potential('B', 'A', P(lambda r: 1.25 - r))]
     cutoff, crho = 2.0, 6.0
-    nr = 2 * n if target in ('DLPOLY', 'wp:DL_POLY') else n
+    nr = 4 * (n - 2) if target in ('DLPOLY', 'wp:DL_POLY') else n
     binary = target.startswith('excel')
     if target in ('LAMMPS', 'DLPOLY', 'GULP', 'excel'):
         cls = {'LAMMPS': PT.LAMMPS_PairTabulation, 'DLPOLY': PT.DLPoly_PairTabulation, 'GULP': PT.GULP_PairTabulation, 'excel': PT.Excel_PairTabulation}[target]
@@ -89,15 +95,15 @@ def make_objects(target, shared, n):
     return tab.write, binary
 
 
-def api_run(target, k, n):
+def api_run(target, k, n, exc=InjectedFault, big=False):
     """-> (raised?, bytes in sink, evaluations, second-write outcome)"""
-    shared = Shared(k)
-    write, binary = make_objects(target, shared, n)
+    shared = Shared(k, exc)
+    write, binary = (make_big if big else make_objects)(target, shared, n)
     sink = io.BytesIO() if binary else io.StringIO()
     raised = False
     try:
         write(sink)
-    except InjectedFault:
+    except exc:
         raised = True
     first = sink.getvalue()
     second = None
@@ -106,9 +112,39 @@ def api_run(target, k, n):
         try:
             write(sink2)
             second = ('returned', sink2.getvalue())
-        except InjectedFault:
+        except exc:
             second = ('raised', sink2.getvalue())
     return raised, first, shared.count, second
+
+
+def make_big(target, shared, n):
+    """six species on an n-row grid: several MiB of output before a late failure"""
+    import atsim.potentials as ap
+    from atsim.potentials import pair_tabulation as PT, eam_tabulation as ET
+    import math
+    P = lambda f: Proxy(shared, f)   # noqa
+    sp = ['A', 'B', 'C', 'D', 'E', 'F']
+    pots = [ap.Potential(sp[i], sp[j], P(lambda r, k=i * 6 + j: (1.0 + 0.01 * k) * math.exp(-r))) for i in range(6) for j in range(i, 6)]
+    fs = target.endswith('_fs')
+
+    def dens(i):
+        if fs:
+            return dict((b, P(lambda r, c=0.1 * (i * 6 + j + 1): c * math.exp(-0.7 * r))) for j, b in enumerate(sp))
+        return P(lambda r, c=0.5 + 0.1 * i: c * math.exp(-0.7 * r))
+    eam = [ap.EAMPotential(s_, i + 1, 1.5 + i, P(lambda rho, c=1.0 + i: -c * math.sqrt(rho + 1.0)), dens(i), 2.5, 'fcc') for i, s_ in enumerate(sp)]
+    cutoff, crho = 6.0, 60.0
+    if target in ('LAMMPS', 'DLPOLY', 'GULP'):
+        cls = {'LAMMPS': PT.LAMMPS_PairTabulation, 'DLPOLY': PT.DLPoly_PairTabulation, 'GULP': PT.GULP_PairTabulation}[target]
+        return cls(pots, cutoff, n).write, False
+    cls = getattr(ET, {'setfl': 'SetFL_EAMTabulation', 'setfl_fs': 'SetFL_FS_EAMTabulation', 'DL_POLY_EAM': 'TABEAM_EAMTabulation',
+                       'DL_POLY_EAM_fs': 'TABEAM_FinnisSinclair_EAMTabulation', 'eam_adp': 'ADP_EAMTabulation'}[target])
+    if target == 'eam_adp':
+        return cls(pots, eam, pots[:3], pots[3:6], cutoff, n, crho, n).write, False
+    return cls(pots, eam, cutoff, n, crho, n).write, False
+
+
+BIG_TARGETS = ['LAMMPS', 'DLPOLY', 'GULP', 'setfl', 'setfl_fs', 'DL_POLY_EAM', 'DL_POLY_EAM_fs', 'eam_adp']
+BIG_N = 10000
 
 
 _count_cache = {}
@@ -138,7 +174,7 @@ def potable_slots(target):
 
 
 def potable_ini(target, bad_slot, row, n):
-    nr = 2 * n if target == 'DLPOLY' else n
+    nr = 4 * (n - 2) if target == 'DLPOLY' else n
     cutoff, crho = 2.0, 6.0
     dr, drho = cutoff / (nr - 1), crho / (n - 1)
     out = ['[Tabulation]', 'target : %s' % target, 'nr : %d' % nr, 'cutoff : %s' % X.num(cutoff)]
@@ -170,12 +206,25 @@ def cases(tier):
             for k in range(1, N + 1):
                 out.append(dict(route='api', target=tgt, k=k, n=n, N=N))
         for tgt in POTABLE_TARGETS:
-            nr = 2 * n if tgt == 'DLPOLY' else n
+            nr = 4 * (n - 2) if tgt == 'DLPOLY' else n
             for slot in potable_slots(tgt):
                 rows = n if slot[0] == 'EAM-Embed' else (nr - 1 if tgt == 'LAMMPS' and slot[0] == 'Pair' else nr)
                 for row in range(rows):
                     out.append(dict(route='potable', target=tgt, slot=list(slot), row=row, n=n))
             out.append(dict(route='potable', target=tgt, slot=None, row=0, n=n))       # control: fault-free run writes a table
+    # other exception classes a model callable may raise (StopIteration is swallowed by map()/generators if the writer uses them)
+    for tgt in API_TARGETS:
+        N, _ref = count_evals(tgt, 4)
+        for name in sorted(FAULTS):
+            if FAULTS[name] is None:
+                continue
+            for k in sorted(set([1, 2, N // 2, N - 1, N])):
+                if name != 'ValueError':
+                    out.append(dict(route='api', target=tgt, k=k, n=4, N=N, exc=name))
+    # tables of several MiB: failures late in the write (after megabytes of text have been produced)
+    for tgt in BIG_TARGETS:
+        for frac in ((0.999,) if tier == 'quick' else (0.5, 0.9, 0.999)):
+            out.append(dict(route='api-big', target=tgt, frac=frac, n=BIG_N))
     for tgt in POTABLE_TARGETS:
         for j, slot in enumerate(potable_slots(tgt)[:3 if tier == 'quick' else None]):
             out.append(dict(route='subprocess', target=tgt, slot=list(slot), row=j % 2 + 1, n=4))
@@ -193,7 +242,8 @@ def run_api(case):
     if N != case['N']:
         V(viol, 'nondeterministic-evaluation-count', '%s: %d evaluations now, %d when the case list was built' % (tgt, N, case['N']))
         return viol
-    raised, first, cnt, second = api_run(tgt, k, n)
+    exc = FAULTS[case.get('exc', 'ValueError')]
+    raised, first, cnt, second = api_run(tgt, k, n, exc)
     if raised:
         if len(first):
             V(viol, 'partial-output:%s' % tgt, '%s: evaluation %d of %d failed and write() raised, but %d bytes had already been written to the file object'
@@ -254,6 +304,26 @@ def run_subprocess(case):
     return viol
 
 
+_big_counts = {}
+
+
+def run_api_big(case):
+    viol = []
+    tgt, n = case['target'], case['n']
+    if tgt not in _big_counts:
+        raised, ref, N, _s = api_run(tgt, 0, n, big=True)
+        _big_counts[tgt] = (N, len(ref))
+    N, size = _big_counts[tgt]
+    k = max(1, int(N * case['frac']))
+    raised, first, cnt, second = api_run(tgt, k, n, big=True)
+    if raised and len(first):
+        V(viol, 'partial-output:%s' % tgt, '%s, 6 species, %d rows (%.1f MiB table): evaluation %d of %d failed and write() raised, but %d bytes had already been written'
+          % (tgt, n, size / 1048576.0, k, N, len(first)))
+    if not raised:
+        V(viol, 'fault-swallowed:%s' % tgt, '%s large table: evaluation %d of %d raised but write() returned normally' % (tgt, k, N))
+    return viol
+
+
 def run_case(case):
-    viol = dict(api=run_api, potable=run_potable, subprocess=run_subprocess)[case['route']](case)
+    viol = {'api': run_api, 'potable': run_potable, 'subprocess': run_subprocess, 'api-big': run_api_big}[case['route']](case)
     return dict(outcome='ok:%s:%s' % (case['route'], case['target']) if not viol else 'violation', nontrivial=True, evals=1, violations=viol)
